@@ -735,6 +735,8 @@ func (r *readerRun) exec(sc *xport.ScriptConn, outp *[]Ev) (out []Ev) {
 	}
 	big := make([]byte, kmax)
 
+	type keptMsg struct{ got, want []byte }
+	var kept []keptMsg // payloads returned by ReadMessage: they belong to the application and must not change later
 	var rd io.Reader
 	var prevRd io.Reader // the reader of an earlier message, stale once the application has moved on
 	var acc []byte
@@ -827,7 +829,13 @@ func (r *readerRun) exec(sc *xport.ScriptConn, outp *[]Ev) (out []Ev) {
 			}
 			var b []byte
 			var err error
-			measure(func() { b, err = io.ReadAll(rd) })
+			if op.K == 1 {
+				var bb bytes.Buffer
+				measure(func() { _, err = io.Copy(&bb, rd) })
+				b = bb.Bytes()
+			} else {
+				measure(func() { b, err = io.ReadAll(rd) })
+			}
 			acc = append(acc, b...)
 			cand, any := contentCand()
 			out = append(out, Ev{"e": "RA", "n": len(b), "err": r.classify(err), "obs": r.takeObs(), "cand": cand, "any": any})
@@ -915,6 +923,9 @@ func (r *readerRun) exec(sc *xport.ScriptConn, outp *[]Ev) (out []Ev) {
 			var b []byte
 			var err error
 			measure(func() { t, b, err = c.ReadMessage() })
+			if len(b) > 0 {
+				kept = append(kept, keptMsg{got: b, want: append([]byte{}, b...)})
+			}
 			if rd != nil {
 				prevRd = rd
 			}
@@ -923,6 +934,13 @@ func (r *readerRun) exec(sc *xport.ScriptConn, outp *[]Ev) (out []Ev) {
 			cand, any := contentCand()
 			out = append(out, Ev{"e": "RM", "ok": t == 1 || t == 2, "type": t, "n": len(b), "err": r.classify(err), "obs": r.takeObs(), "cand": cand, "any": any})
 			acc = nil
+		}
+	}
+	for i, k := range kept {
+		if !bytes.Equal(k.got, k.want) {
+			// a delivered message changed after delivery (e.g. it aliases the connection's read buffer)
+			out = append(out, Ev{"e": "MUTATED", "i": i, "n": len(k.want)})
+			break
 		}
 	}
 	delta := libAlloc
